@@ -265,6 +265,25 @@ def cross_sample(ctx, spec, hbin, drv, extra):
     return n, bad
 
 
+def merge_pipelines(results):
+    """sum of the per-part summaries; the first non-zero harness status"""
+    summary = dict(cases=0, mismatches=0, distinct_nontrivial=0, samples=[], ops={}, dist={})
+    mism, rc = [], 0
+    for sm, mm, r in results:
+        for k in ('cases', 'mismatches', 'distinct_nontrivial'):
+            summary[k] += sm.get(k, 0)
+        for k in ('ops', 'dist'):
+            for a, b in (sm.get(k) or {}).items():
+                summary[k][a] = summary[k].get(a, 0) + b
+        summary['samples'] += (sm.get('samples') or [])[:3]
+        mism += mm
+        if r != 0 and rc == 0:
+            rc = r
+    if not summary['dist']:
+        del summary['dist']
+    return summary, mism, rc
+
+
 def run_suite(ctx, spec):
     t0 = time.time()
     hbin = build.harness(ctx, spec.get('profile', 'release'))
@@ -273,11 +292,20 @@ def run_suite(ctx, spec):
     if spec.get('bins'):
         extra += ['--bindir', build.workspace_bins(ctx, spec['bins'])]
     csum, cmm = run_corpus(ctx, spec, hbin, drv, extra)
-    cmd = [hbin, spec['suite'], '--tier', ctx.tier, '--seed', str(ctx.seed)]
-    if spec.get('parts'):
-        cmd += ['--parts', ','.join(spec['parts'])]
-    cmd += extra
-    summary, mism, rc = pipeline(ctx, cmd, drv)
+    base = [hbin, spec['suite'], '--tier', ctx.tier, '--seed', str(ctx.seed)]
+    parts = spec.get('parts') or []
+    if len(parts) > 1 and spec['suite'] in ('text', 'bdd', 'gen'):
+        # the parts of a suite are independent (each derives its own generator state from the seed): one pipeline per part
+        from concurrent.futures import ThreadPoolExecutor
+        with ThreadPoolExecutor(max_workers=min(len(parts), 8)) as ex:
+            results = list(ex.map(lambda pt: pipeline(ctx, base + ['--parts', pt] + extra, drv), parts))
+        summary, mism, rc = merge_pipelines(results)
+    else:
+        cmd = list(base)
+        if parts:
+            cmd += ['--parts', ','.join(parts)]
+        cmd += extra
+        summary, mism, rc = pipeline(ctx, cmd, drv)
     stat = dict(suite='S-%s/%s' % (spec['suite'], ','.join(spec.get('parts', []))), cases=summary.get('cases', 0),
                 distinct_nontrivial=summary.get('distinct_nontrivial', 0), mismatches=summary.get('mismatches', 0),
                 ops=summary.get('ops', {}), samples=summary.get('samples', []), rule=spec.get('rule', ''),
@@ -308,33 +336,80 @@ def run_suite(ctx, spec):
         analyse(ctx, spec, hbin, drv, allmm, extra)
 
 
+STATE_CONE = {
+    # source files whose state can influence what the property speaks about
+    'C19': ('set.rs', 'bdd.rs', 'symbols.rs'),
+    'default': ('bdd.rs', 'parser.rs', 'symbols.rs'),
+}
+
+
+def _is_plain_counter(name, decl, lines):
+    """an integer Cell / atomic that is only ever bumped and read out by an accessor: every line that mentions it is its
+    declaration, an increment, or a bare read (no comparison, no branch, no arithmetic other than + 1 on that line)"""
+    import re
+    if not re.search(r'(?:Cell|Atomic)\s*<?\s*(?:usize|u64|u32|U64|Usize|U32)|Atomic(?:Usize|U64|U32)', decl):
+        return False
+    for code in lines:
+        if not re.search(r'\b%s\b' % re.escape(name), code):
+            continue
+        c = re.sub(r'->|=>|<[A-Za-z0-9_:,& \'<>]*>|::<', ' ', code)          # arrows and generic arguments are not comparisons
+        if re.search(r'\bif\b|\bmatch\b|\bwhile\b|[<>]|==|!=|%|\bmin\b|\bmax\b|\bcmp\b', c):
+            return False
+    return True
+
+
 def lint_state(ctx):
-    """No persistent mutable state besides the unique table (and the two documented RefCells of BDDSet / ParsedFormula):
-    a memo table, a cache keyed by hash or a call counter can make results depend on history in ways no finite run is
-    guaranteed to reach (only after 65536 calls, only on a hash collision).  The tree model has no such state."""
+    """No persistent mutable state besides the unique table (and the two documented RefCells of BDDSet / ParsedFormula) in
+    the files the property depends on: a memo table or a cache keyed by hash can make results depend on history in ways no
+    finite run is guaranteed to reach (only after 65536 calls, only on a hash collision).  The tree model has no such state.
+    Not counted: integer counters that are only bumped and read out (statistics), and lazily initialised immutable tables."""
     import re, glob
-    problems = []
-    # persistent mutable state: the theorem's ADT has exactly one piece of state, the unique table.  Any further
-    # interior-mutable field or global (a memo table, a cache keyed by hash, a call counter) can make results
-    # depend on history in ways no finite run is guaranteed to reach (e.g. only after 65536 calls or on a hash collision).
+    problems, benign = [], []
     allowed_state = {('bdd.rs', 'nodes'), ('set.rs', 'bdd'), ('parser.rs', 'definitions')}
+    cone = STATE_CONE.get(ctx.pid, STATE_CONE['default'])
     for path in sorted(glob.glob(os.path.join(ctx.repo, 'src', '*.rs'))):
         base = os.path.basename(path)
+        if base not in cone:
+            continue
+        rel = os.path.relpath(path, ctx.repo)
+        lines = [l.split('//')[0] for l in open(path)]
         in_cfg_verif = 0
-        for ln, line in enumerate(open(path), 1):
-            code = line.split('//')[0]
+        in_lazy = 0
+        for ln, code in enumerate(lines, 1):
             if 'cfg(rsbdd_verif)' in code:
                 in_cfg_verif = 40       # the hook module is compiled only for verification
             elif in_cfg_verif:
                 in_cfg_verif -= 1
-            m = re.match(r'\s*(?:pub(?:\([a-z]+\))?\s+)?(\w+)\s*:\s*(.*(?:RefCell|Cell|Mutex|RwLock|OnceCell|OnceLock|Atomic\w+)\s*<?.*)', code)
-            if m and not in_cfg_verif and '(' not in code.split(':')[0] and 'fn ' not in code:
+            if in_cfg_verif:
+                continue
+            mutable_ty = re.search(r'\b(?:RefCell|Cell|Mutex|RwLock|Atomic\w+)\b', code)
+            # struct fields
+            m = re.match(r'\s*(?:pub(?:\([a-z]+\))?\s+)?(\w+)\s*:\s*(.*(?:RefCell|Cell|Mutex|RwLock|Atomic\w+)\s*<?.*)', code)
+            if m and '(' not in code.split(':')[0] and 'fn ' not in code and not re.match(r'\s*(?:pub\s+)?static\b', code):
                 if (base, m.group(1)) not in allowed_state:
-                    problems.append('%s:%d: interior-mutable state `%s` besides the unique table' % (os.path.relpath(path, ctx.repo), ln, m.group(1)))
-            if re.search(r'\bstatic\s+mut\b|thread_local!|lazy_static!', code) and not in_cfg_verif:
-                if not (base == 'parser.rs' and 'lazy_static!' in code):
-                    problems.append('%s:%d: global mutable state' % (os.path.relpath(path, ctx.repo), ln))
-    ctx.notes.append('state lint (no interior-mutable state besides the unique table): %d finding(s)' % len(problems))
+                    if _is_plain_counter(m.group(1), m.group(2), lines):
+                        benign.append('%s:%d: counter `%s` (only incremented and read out)' % (rel, ln, m.group(1)))
+                    else:
+                        problems.append('%s:%d: interior-mutable state `%s` besides the unique table' % (rel, ln, m.group(1)))
+            # globals: static mut, thread_local!, lazy_static! / OnceLock holding something mutable
+            if re.search(r'\bstatic\s+mut\b', code):
+                problems.append('%s:%d: static mut' % (rel, ln))
+            if re.search(r'thread_local!|lazy_static!', code):
+                in_lazy = 12
+            sm = re.match(r'\s*(?:pub(?:\([a-z]+\))?\s+)?static\s+(?:ref\s+)?(\w+)\s*:\s*(.*)', code)
+            if sm:
+                name, decl = sm.group(1), sm.group(2)
+                if re.search(r'\b(?:RefCell|Cell|Mutex|RwLock|Atomic\w+)\b', decl):
+                    if _is_plain_counter(name, decl, lines):
+                        benign.append('%s:%d: global counter `%s` (only incremented and read out)' % (rel, ln, name))
+                    else:
+                        problems.append('%s:%d: global mutable state `%s`' % (rel, ln, name))
+                else:
+                    benign.append('%s:%d: immutable global `%s`' % (rel, ln, name))
+            if in_lazy:
+                in_lazy -= 1
+    ctx.notes.append('state lint (no interior-mutable state besides the unique table in %s): %d finding(s), %d benign (%s)'
+                     % (', '.join(cone), len(problems), len(benign), '; '.join(benign[:6])))
     if problems:
         ctx.violation({'kind': 'lint', 'key': 'lint:state', 'broken_correspondence':
                        'state lint: the implementation keeps mutable state that the model does not have (results may depend on history)',
